@@ -1171,12 +1171,10 @@ func (g *Gen) genC08(n int) error {
 func (g *Gen) randRange(terms []string) (string, string) {
 	cands := [][]byte{[]byte("!"), []byte("a"), []byte("aa"), []byte("ab"), []byte("b"), []byte("bz"), []byte("m"), []byte("zz"), []byte("zzz"), []byte("\xff")}
 	for _, t := range terms {
-		// the empty key is not usable as a bound: vellum (like any Go API taking
-		// []byte) cannot tell an empty end key from an absent one
-		if len(t) > 0 {
-			cands = append(cands, []byte(t))
-		}
+		cands = append(cands, []byte(t))
 	}
+	// the empty key is a legitimate bound: ["", x) starts at the first key, [x, "") is empty
+	cands = append(cands, []byte{})
 	sort.Slice(cands, func(i, j int) bool { return string(cands[i]) < string(cands[j]) })
 	a := g.r.Intn(len(cands))
 	b := g.r.Intn(len(cands))
@@ -1184,6 +1182,13 @@ func (g *Gen) randRange(terms []string) (string, string) {
 		a, b = b, a
 	}
 	lo, hi := hx(cands[a]), hx(cands[b])
+	if g.chance(0.15) {
+		// an empty range: equal bounds, or start beyond end
+		if g.chance(0.5) {
+			return hi, hi
+		}
+		return hi, lo
+	}
 	if string(cands[a]) >= string(cands[b]) {
 		if g.chance(0.5) {
 			return lo, "*"
